@@ -101,6 +101,19 @@ def full_models(g):
         m["version"] = m["version"] or "1.0.0"
 
 
+def extra_required(g, rng):
+    """a Model may require a model none of its nodes refers to (a declared dependency): it is part of the graph's models all the same.
+    Only earlier namespaces are added, so the requirements stay acyclic."""
+    for i, u in enumerate(g["uris"]):
+        m = g["models"].get(u)
+        if m is None:
+            continue
+        have = {r["uri"] for r in m["required"]}
+        for x in g["uris"][:i]:
+            if x not in have and rng.random() < 0.7:
+                m["required"].append({"uri": x, "version": "1.0.0", "publication_date": "2020-01-01T00:00:00Z"})
+
+
 def witnesses(run, sc):
     rng = run.rng
     # D-C05c: a Model without Version gets the default version
@@ -163,6 +176,8 @@ def explore(run):
             else:
                 g, files0 = W.gen_closed(rng, hostile=rng.random() < 0.5, n_ns=rng.choice([1, 2, 2, 3, 3]))
             full_models(g)
+            if len(g["uris"]) > 1 and rng.random() < 0.5:
+                extra_required(g, rng)
             files = D.serialise(rng, g, extras=False)
             cross = sum(1 for (a, b, c) in g["refs"] if a[0] != b[0] and UA not in (a[0], b[0]))
             run.case({"set": i, "namespaces": len(g["uris"]), "cross_refs": cross}, nontrivial=len(g["uris"]) > 1 or cross > 0, tag="set:%d-ns" % len(g["uris"]))
